@@ -62,13 +62,14 @@ class Result:
         self.violations = []      # dicts: label, model, replay (argv for the native replay binary), expect
         self.witnesses = []       # passing-path samples: concrete inputs + executor output, replayed natively
         self.summaries = []; self.inlined = []
-        self.panic_paths = 0; self.wall_s = 0.0; self.cases = {}
+        self.panic_paths = 0; self.wall_s = 0.0; self.cases = {}; self.checked = 0
         self.formulas = []
 
     def absorb(self, ex):
         self.paths += ex.paths; self.queries += ex.queries; self.solver_s += ex.solver_s; self.blocks += ex.blocks_run
         self.summaries = sorted(set(self.summaries) | ex.used_summaries); self.inlined = sorted(set(self.inlined) | ex.inlined)
         self.formulas += ex.formulas
+        self.checked += getattr(ex, 'n_recorded', 0)
         if ex.bound_hits and self.status != 'violation':
             self.status = 'inconclusive'; self.reason = 'loop bound exceeded in %s' % ex.bound_hits[0][1]
 
